@@ -320,8 +320,9 @@ def emit(rep: Report, level, t0, manifest_note=""):
         "assumptions": sorted(rep.assumptions), "wall_s": round(time.time() - t0, 2),
         "violations": len(rep.violations),
     }
-    os.makedirs(os.path.join(ROOT, "evidence"), exist_ok=True)
-    path = os.path.join(ROOT, "evidence", f"{rep.pid}.json")
+    edir = os.environ.get("VERIF_EVIDENCE_DIR") or os.path.join(ROOT, "evidence")  # scratch evaluations (seeded defects) write elsewhere
+    os.makedirs(edir, exist_ok=True)
+    path = os.path.join(edir, f"{rep.pid}.json")
     with open("/root/.vp/EVIDENCE.schema.json") as f:
         schema = json.load(f)
     validate(ev, schema)
